@@ -751,3 +751,161 @@ Section SpecProps.
     - exact Hw.
   Qed.
 End SpecProps.
+
+(* ====================================================================== *)
+(* 8. breadth-first: distances are non-decreasing and shortest              *)
+(* ====================================================================== *)
+
+From Coq Require Import Sorting.Sorted.
+
+Lemma SSorted_app : forall (A : Type) (R : A -> A -> Prop) (l1 l2 : list A),
+  StronglySorted R l1 -> StronglySorted R l2 -> (forall x y, In x l1 -> In y l2 -> R x y) ->
+  StronglySorted R (l1 ++ l2).
+Proof.
+  induction l1 as [|x l1 IH]; intros l2 H1 H2 H; cbn [app]; [exact H2|].
+  apply StronglySorted_inv in H1. destruct H1 as [H1 Hx]. constructor.
+  - apply IH; [exact H1 | exact H2 |]. intros y z Hy Hz. apply H; [right; exact Hy | exact Hz].
+  - apply Forall_app. split; [exact Hx|]. apply Forall_forall. intros y Hy. apply H; [left; reflexivity | exact Hy].
+Qed.
+
+Lemma SSorted_all : forall (A : Type) (R : A -> A -> Prop) (l : list A),
+  (forall x y, In x l -> In y l -> R x y) -> StronglySorted R l.
+Proof.
+  induction l as [|x l IH]; intros H; constructor.
+  - apply IH. intros y z Hy Hz. apply H; right; assumption.
+  - apply Forall_forall. intros y Hy. apply H; [left; reflexivity | right; exact Hy].
+Qed.
+
+Lemma SSorted_rev : forall (A : Type) (R : A -> A -> Prop) (l : list A),
+  StronglySorted (fun x y => R y x) l -> StronglySorted R (rev l).
+Proof.
+  induction l as [|x l IH]; intros H; cbn [rev]; [constructor|].
+  apply StronglySorted_inv in H. destruct H as [H Hx]. apply SSorted_app.
+  - apply IH. exact H.
+  - constructor; constructor.
+  - intros y z Hy [Hz|[]]. subst z. rewrite Forall_forall in Hx. apply Hx. apply in_rev. exact Hy.
+Qed.
+
+Lemma SSorted_map : forall (A B : Type) (f : A -> B) (R : B -> B -> Prop) (l : list A),
+  StronglySorted (fun x y => R (f x) (f y)) l -> StronglySorted R (map f l).
+Proof.
+  induction l as [|x l IH]; intros H; cbn [map]; [constructor|].
+  apply StronglySorted_inv in H. destruct H as [H Hx]. constructor; [apply IH; exact H|].
+  apply Forall_forall. intros y Hy. apply in_map_iff in Hy. destruct Hy as (z & <- & Hz).
+  rewrite Forall_forall in Hx. apply Hx. exact Hz.
+Qed.
+
+Lemma SSorted_head_min : forall (A : Type) (R : A -> A -> Prop) (x : A) (l : list A),
+  StronglySorted R (x :: l) -> forall y, In y l -> R x y.
+Proof.
+  intros A R x l H y Hy. apply StronglySorted_inv in H. destruct H as [_ H].
+  rewrite Forall_forall in H. apply H. exact Hy.
+Qed.
+
+Section BfsProps.
+  Variable g : graph.
+  Hypothesis Hok : adj_ok g.
+  Variable rv : bool.
+  Variable o : Z.
+  Hypothesis Ho : elem_id g o = true.
+
+  Definition le_k (p q : Z * Z) : Prop := snd p <= snd q.
+
+  Definition inv_bfs (E acc : list (Z * Z)) : Prop :=
+    StronglySorted le_k E /\
+    (forall p q, In p E -> In q E -> snd q <= snd p + 1) /\
+    (forall p q, In p acc -> In q E -> snd p <= snd q) /\
+    StronglySorted (fun p q => le_k q p) acc /\
+    (forall x dx z, In (x, dx) acc -> In z (succs g rv x) ->
+       (exists dz, In (z, dz) acc /\ dz <= dx + 1) \/ In (z, dx + 1) E).
+
+  Lemma inv_bfs_step : forall E acc E' acc', inv_bfs E acc -> spec_step g BFS rv E acc = Some (E', acc') -> inv_bfs E' acc'.
+  Proof.
+    intros E acc E' acc' (Hs & Hspread & Hacc & Hsa & Hsucc) Hstep.
+    destruct E as [|[x k] rest]; cbn [spec_step] in Hstep; [discriminate|].
+    assert (Hrest : StronglySorted le_k rest) by (apply StronglySorted_inv in Hs; tauto).
+    assert (Hmin : forall q, In q rest -> k <= snd q).
+    { intros q Hq. apply (SSorted_head_min _ le_k (x, k) rest Hs q Hq). }
+    destruct (inb x (map fst acc)) eqn:Ev; injection Hstep as <- <-.
+    - (* already visited *)
+      repeat split.
+      + exact Hrest.
+      + intros p q Hp Hq. apply Hspread; right; assumption.
+      + intros p q Hp Hq. apply Hacc; [exact Hp | right; exact Hq].
+      + exact Hsa.
+      + intros x' dx z Hx' Hz. destruct (Hsucc x' dx z Hx' Hz) as [H|[H|H]].
+        * left. exact H.
+        * injection H as <- Hk. apply inb_In in Ev. apply in_map_iff in Ev.
+          destruct Ev as ([x0 d0] & Hx0 & Hin). cbn [fst] in Hx0. subst x0.
+          left. exists d0. split; [exact Hin|].
+          pose proof (Hacc (x, d0) (x, k) Hin (or_introl eq_refl)) as Hle. cbn [snd] in Hle. lia.
+        * right. exact H.
+    - (* a new element *)
+      set (new := map (fun y => (y, k + 1)) (succs g rv x)).
+      assert (Hnew : forall q, In q new -> snd q = k + 1).
+      { intros q Hq. unfold new in Hq. apply in_map_iff in Hq. destruct Hq as (z & <- & _). reflexivity. }
+      assert (Hrmax : forall q, In q rest -> snd q <= k + 1).
+      { intros q Hq. apply (Hspread (x, k) q); [left; reflexivity | right; exact Hq]. }
+      repeat split.
+      + apply SSorted_app.
+        * exact Hrest.
+        * apply SSorted_all. intros p q Hp Hq. unfold le_k. rewrite (Hnew p Hp), (Hnew q Hq). lia.
+        * intros p q Hp Hq. unfold le_k. rewrite (Hnew q Hq). apply Hrmax. exact Hp.
+      + intros p q Hp Hq. apply in_app_or in Hp. apply in_app_or in Hq.
+        assert (Hp' : k <= snd p) by (destruct Hp as [Hp|Hp]; [apply Hmin; exact Hp | rewrite (Hnew p Hp); lia]).
+        assert (Hq' : snd q <= k + 1) by (destruct Hq as [Hq|Hq]; [apply Hrmax; exact Hq | rewrite (Hnew q Hq); lia]).
+        lia.
+      + intros p q Hp Hq. apply in_app_or in Hq.
+        assert (Hq' : k <= snd q) by (destruct Hq as [Hq|Hq]; [apply Hmin; exact Hq | rewrite (Hnew q Hq); lia]).
+        destruct Hp as [Hp|Hp].
+        * subst p. exact Hq'.
+        * pose proof (Hacc p (x, k) Hp (or_introl eq_refl)) as Hle. cbn [snd] in Hle. lia.
+      + constructor; [exact Hsa|]. apply Forall_forall. intros p Hp. unfold le_k.
+        apply (Hacc p (x, k) Hp). left. reflexivity.
+      + intros x' dx z Hx' Hz. destruct Hx' as [Hx'|Hx'].
+        * injection Hx' as <- <-. right. apply in_or_app. right. unfold new. apply in_map_iff.
+          exists z. split; [reflexivity | exact Hz].
+        * destruct (Hsucc x' dx z Hx' Hz) as [(dz & Hin & Hle)|[H|H]].
+          -- left. exists dz. split; [right; exact Hin | exact Hle].
+          -- injection H as <- Hk. left. exists k. split; [left; reflexivity | lia].
+          -- right. apply in_or_app. left. exact H.
+  Qed.
+
+  Theorem bfs_spec_distances :
+    let r := search_spec g BFS rv o in
+    StronglySorted Z.le (map snd r) /\
+    (forall x k, In (x, k) r -> shortest g rv o x k).
+  Proof.
+    intros r. pose proof (search_spec_run g Hok BFS rv o Ho) as Hrun. fold r in Hrun.
+    assert (H : inv_bfs [] (rev r)).
+    { apply (spec_run_inv g BFS rv inv_bfs inv_bfs_step _ _ _ r) in Hrun; [exact Hrun|].
+      repeat split.
+      - constructor; constructor.
+      - intros p q [<-|[]] [<-|[]]. lia.
+      - intros p q [].
+      - constructor.
+      - intros x dx z []. }
+    destruct H as (_ & _ & _ & Hsa & Hsucc).
+    destruct (search_spec_reachable g Hok BFS rv o Ho) as ((tl & Hhd) & Hnd & _ & Hw). fold r in Hhd, Hnd, Hw.
+    split.
+    - apply SSorted_map. apply SSorted_rev in Hsa. rewrite rev_involutive in Hsa. exact Hsa.
+    - intros x k Hin. split; [apply Hw; exact Hin|].
+      (* every walk of length j to y ends at an element recorded with a distance <= j *)
+      assert (Hall : forall y j, walk g rv o y j -> exists dy, In (y, dy) r /\ dy <= j).
+      { intros y j Hy. induction Hy as [|y z j _ (dy & Hiny & Hle) Hz].
+        - exists 0. split; [rewrite Hhd; left; reflexivity | lia].
+        - destruct (Hsucc y dy z (proj1 (in_rev r (y, dy)) Hiny) Hz) as [(dz & Hinz & Hle')|[]].
+          exists dz. split; [apply in_rev; exact Hinz | lia]. }
+      intros k' Hk'. destruct (Hall x k' Hk') as (dx & Hinx & Hle).
+      (* the recorded distance is unique *)
+      assert (dx = k).
+      { clear - Hnd Hin Hinx. induction r as [|[y j] r' IH]; [contradiction|].
+        cbn [map fst] in Hnd. inversion Hnd as [|? ? Hny Hnd']; subst.
+        destruct Hin as [Hin|Hin]; destruct Hinx as [Hinx|Hinx].
+        - congruence.
+        - injection Hin as -> ->. exfalso. apply Hny. apply in_map_iff. exists (x, dx). split; [reflexivity | exact Hinx].
+        - injection Hinx as -> ->. exfalso. apply Hny. apply in_map_iff. exists (x, k). split; [reflexivity | exact Hin].
+        - apply IH; assumption. }
+      lia.
+  Qed.
+End BfsProps.
